@@ -212,6 +212,9 @@ Definition ins_locked (g : glob) (pol : N) (k : key) (tok : N) : glob :=
   end.
 
 (* remove_route's critical section *)
+(* AtomicU64::fetch_sub(1) of Table::remove: wraps at zero (a session that came back after a
+   graceful restart has a fresh counter and may withdraw a path retained from the previous one) *)
+Definition ctr_dec (n : N) : N := if n =? 0 then 18446744073709551615 else n - 1.
 Definition rem_locked (g : glob) (k : key) : glob :=
   let evs := [evk false k None; evk true k None] in
   let rib' := upd_rib k None (g_rib g) in
@@ -219,7 +222,7 @@ Definition rem_locked (g : glob) (k : key) : glob :=
   match g_rib g k, limit_of (k_peer k) with
   | Some _, Some _ =>
     if peer_has_prefix g' k then g'
-    else with_rib g (live g) evs (g_keys g) rib' (g_ssn g) (set_ctr (k_peer k) (g_ctr g (k_peer k) - 1) (g_ctr g))
+    else with_rib g (live g) evs (g_keys g) rib' (g_ssn g) (set_ctr (k_peer k) (ctr_dec (g_ctr g (k_peer k))) (g_ctr g))
   | _, _ => g'
   end.
 
